@@ -248,6 +248,13 @@ pub fn guard<T>(f: impl FnOnce() -> T) -> Result<T, String> {
 }
 
 pub fn silence_panics() {
+    // VERIF_PANIC_TRACE=1 prints where each caught panic came from (machinery debugging only).
+    if std::env::var("VERIF_PANIC_TRACE").is_ok() {
+        std::panic::set_hook(Box::new(|i| {
+            eprintln!("panic: {}", i);
+        }));
+        return;
+    }
     std::panic::set_hook(Box::new(|_| {}));
 }
 
